@@ -262,3 +262,59 @@ var mapRangeTable = map[string]string{
 	"pkg/core/storage.(*MemCachedStore).prepareSeekMemSnapshot": "the snapshot is sorted by performSeek (slices.SortFunc on its memRes parameter) before any element is handed out — checked below",
 	"pkg/core/storage.(*MemoryStore).seek":                      "collected into memList and sorted with slices.SortFunc in the same function",
 }
+
+// ---------------------------------------------------------------------------
+// cfg-local: node-local settings do not flow into execution
+
+func ruleCfgLocal(c *Ctx) {
+	g := c.P.MRG()
+	via := g.Reach(execRoots(c, false), nil)
+	local := map[string]bool{"Ledger": true, "NeoFSBlockFetcher": true, "NeoFSStateFetcher": true, "ApplicationConfiguration": true}
+	tabled := map[string]string{
+		"pkg/core/interop.NewContext.SaveInvocations": "recorded into InvocationCalls only (application-log detail, not part of state, gas or stack)",
+	}
+	var fns []*ssa.Function
+	for fn := range via {
+		fns = append(fns, fn)
+	}
+	sort.Slice(fns, func(i, j int) bool { return FnKey(fns[i]) < FnKey(fns[j]) })
+	nread := 0
+	for _, fn := range fns {
+		for _, b := range fn.Blocks {
+			for _, ins := range b.Instrs {
+				var st *types.Struct
+				var owner string
+				var idx int
+				switch x := ins.(type) {
+				case *ssa.FieldAddr:
+					t := x.X.Type()
+					if p, ok := t.Underlying().(*types.Pointer); ok {
+						t = p.Elem()
+					}
+					if nt, ok := t.(*types.Named); ok && nt.Obj().Pkg() != nil && pkgRel(nt.Obj().Pkg()) == "pkg/config" {
+						owner, idx = nt.Obj().Name(), x.Field
+						st, _ = nt.Underlying().(*types.Struct)
+					}
+				case *ssa.Field:
+					if nt, ok := x.X.Type().(*types.Named); ok && nt.Obj().Pkg() != nil && pkgRel(nt.Obj().Pkg()) == "pkg/config" {
+						owner, idx = nt.Obj().Name(), x.Field
+						st, _ = nt.Underlying().(*types.Struct)
+					}
+				}
+				if st == nil || !local[owner] {
+					continue
+				}
+				fld := st.Field(idx).Name()
+				nread++
+				key := FnKey(fn) + "." + fld
+				if why, ok := tabled[key]; ok {
+					c.OK(key, c.P.Pos(ins.Pos()), "tabled: "+why)
+					continue
+				}
+				c.Fail(key, c.P.Pos(ins.Pos()), fmt.Sprintf("%s reads the node-local setting %s.%s while executing a block/transaction: nodes configured differently would compute different results", FnKey(fn), owner, fld), g.PathTo(via, fn)...)
+			}
+		}
+	}
+	c.OK("closure-scanned", "pkg/core", fmt.Sprintf("%d functions in the execution closure, %d reads of node-local configuration (all tabled)", len(fns), nread))
+	c.Floor("functions in the execution closure", len(fns), 1000)
+}
